@@ -2,6 +2,10 @@ package checks
 
 import (
 	"fmt"
+	"os"
+	"strings"
+	"sync"
+	"time"
 
 	"verif/symgo"
 )
@@ -66,8 +70,10 @@ func C04(tier string) int {
 	sp.Extra = func(cov map[string]interface{}, outs []Outcome) {
 		ticks := 0
 		for _, o := range outs {
-			for _, a := range o.Config.Args[2:3] {
-				ticks += int(a.I)
+			if len(o.Config.Args) >= 3 {
+				ticks += int(o.Config.Args[2].I)
+			} else {
+				ticks += 16 // hardware side: cycles of the unrolling
 			}
 		}
 		cov["states"] = ticks
@@ -81,5 +87,40 @@ func C04(tier string) int {
 		}
 		cov["traces_validated_against_impl"] = n
 	}
-	return Execute(sp)
+	// hardware side: BMC of the generated Verilog, in parallel with the simulator side
+	t0 := time.Now()
+	if err := BuildNative(); err != nil {
+		fmt.Println("MACHINERY:", err)
+		return 2
+	}
+	type hp struct{ k, words, T, mode int }
+	hfam := []hp{{1, 2, 16, 0}, {1, 2, 16, 1}, {1, 3, 16, 1}, {2, 2, 14, 1}}
+	if tier == "thorough" {
+		hfam = []hp{{1, 2, 24, 0}, {1, 2, 24, 1}, {1, 3, 24, 1}, {1, 4, 20, 1}, {2, 2, 20, 0}, {2, 2, 20, 1}, {2, 3, 18, 1}, {3, 2, 16, 1}}
+	}
+	hout := make([]Outcome, len(hfam))
+	var wg sync.WaitGroup
+	for i, f := range hfam {
+		name := fmt.Sprintf("hdl consumers=%d program_words=%d", f.k, f.words)
+		if flt := os.Getenv("BMV_FILTER"); flt != "" && !strings.Contains(name, flt) && !strings.HasPrefix(flt, "hdl") {
+			continue
+		}
+		wg.Add(1)
+		go func(i int, f hp) {
+			defer wg.Done()
+			hout[i] = c04HDL(f.k, f.words, f.T, f.mode)
+		}(i, f)
+	}
+	prog := LoadProgram(sp.LoadPkgs, h)
+	loadS := time.Since(t0).Seconds()
+	sp.Opts.Pkg = h.Pkg
+	outs := RunFamily(prog, sp.Configs, sp.Opts)
+	wg.Wait()
+	for _, ho := range hout {
+		if ho.Config.Name != "" {
+			outs = append(outs, ho)
+		}
+	}
+	sp.Bounds["hdl_family_consumers_words_cycles_mode"] = hfam
+	return Finish(sp, outs, t0, loadS)
 }
